@@ -240,13 +240,59 @@ Definition get_classad_raw (encrypted : bool) (r : reader) : reader * mres unit 
   bind (raw_loop encrypted (S (S (S (N.to_nat (avail r0))))) num r0) (fun r1 _ =>
   bind (type_line encrypted r1) (fun r2 _ => type_line encrypted r2))).
 
+(* skipStringIsMarker: SkipString that also reports whether the skipped string is the
+   secret marker.  Cleartext: the marker is matched byte by byte ([st] = the part of
+   the marker still to match, None once the string differs).  Encrypted: a string of
+   1..len(marker)+1 bytes is looked at (buffer.Next, no allocation), any other length
+   is discarded. *)
+Definition st_step (st : option bytes) (b : byte) : option bytes :=
+  match st with
+  | Some (x :: rest) => if byte_eqb b x then Some rest else None
+  | _ => None
+  end.
+Definition st_done (st : option bytes) : bool :=
+  match st with Some [] => true | _ => false end.
+Fixpoint skip_cstr_marker_loop (fuel : nat) (r : reader) (st : option bytes) : reader * mres bool :=
+  match fuel with
+  | O => (r, MErr MOther)
+  | S f =>
+      match ensure r 1 with
+      | (r1, MOk _) =>
+          match r_buf r1 with
+          | [] => (r1, MErr MOther)
+          | b :: rest =>
+              let r2 := set_buf r1 rest in
+              if byte_eqb b x00 then (r2, MOk (st_done st))
+              else skip_cstr_marker_loop f r2 (st_step st b)
+          end
+      | (r1, MErr MEof) => (r1, MOk (st_done st))
+      | (r1, MErr e) => (r1, MErr e)
+      | (r1, MPanic) => (r1, MPanic)
+      end
+  end.
+Definition skip_lstr_is_marker (r : reader) : reader * mres bool :=
+  bind (get_int32 r) (fun r1 len =>
+  if (len <=? 0)%Z || (Z.of_N (lenN secret_marker) + 1 <? len)%Z
+  then bind (discard r1 len) (fun r2 _ => (r2, MOk false))
+  else bind (ensure r1 len) (fun r2 _ =>
+       let '(r3, data) := r_read r2 (Z.to_N len) in
+       match data with
+       | [] => (r3, MPanic)          (* data[0] on an empty slice *)
+       | _ => (r3, MOk (bytes_eqb (strip_string data) secret_marker))
+       end)).
+Definition skip_string_is_marker (encrypted : bool) (r : reader) : reader * mres bool :=
+  if encrypted then skip_lstr_is_marker r
+  else skip_cstr_marker_loop (S (S (N.to_nat (avail r)))) r (Some secret_marker).
+
 Fixpoint skip_loop (encrypted : bool) (fuel : nat) (left : Z) (r : reader) : reader * mres unit :=
   if (left <=? 0)%Z then (r, MOk tt) else
   match fuel with
   | O => (r, MErr MOther)
   | S f =>
       if finished r then (r, MErr MOther) else
-      bind (skip_string encrypted r) (fun r1 _ => skip_loop encrypted f (left - 1) r1)
+      bind (skip_string_is_marker encrypted r) (fun r1 is_marker =>
+      bind (if is_marker then skip_string encrypted r1 else (r1, MOk tt)) (fun r2 _ =>
+      skip_loop encrypted f (left - 1) r2))
   end.
 Definition skip_classad_raw (encrypted : bool) (r : reader) : reader * mres unit :=
   bind (get_int r) (fun r0 num =>
